@@ -217,6 +217,17 @@ Definition ext_same (nd : store) (x : target) (ext : option target) : bool :=
   | None => false
   end.
 
+(* `os.path.realpath(external) == os.path.realpath(filename)` is evaluated AFTER file_open: in
+   mode w the target has by then been removed and created again, so a target that was a
+   symbolic link to the external file is a regular file of its own and no longer "the same
+   path" (the file system that the pass leaves does not depend on the outcome of this test);
+   in append mode the test is made in the dry run, before anything is changed *)
+Definition ext_same_at (G : fsys -> field -> target -> bool) (fs : fsys) (q : wreq) (o : wopts) (stamp : Z) : bool :=
+  match w_mode o with
+  | MA => ext_same (nodes fs) (q_x q) (q_ext q)
+  | _ => ext_same (nodes (fst (write_one G fs (q_fields q) (q_x q) o false stamp))) (q_x q) (q_ext q)
+  end.
+
 (* append mode switches overwrite off for everything that follows *)
 Definition eff_overwrite (o : wopts) : bool :=
   match w_mode o with MA => false | _ => w_overwrite o end.
@@ -226,7 +237,7 @@ Definition eff_overwrite (o : wopts) : bool :=
    forwarded to the write of the external file. *)
 Definition write_gen (C FW : bool) (G : fsys -> field -> target -> bool)
            (fs : fsys) (q : wreq) (o : wopts) (stamp : Z) : fsys * option errk :=
-  let (fs1, r1) := write_one G fs (q_fields q) (q_x q) o (ext_same (nodes fs) (q_x q) (q_ext q)) stamp in
+  let (fs1, r1) := write_one G fs (q_fields q) (q_x q) o (ext_same_at G fs q o stamp) stamp in
   match r1, q_ext q, q_efields q with
   | None, Some e, _ :: _ =>
       if C && existsb (fun f => G fs1 f e) (q_fields q) then (fs1, Some ValueErr)
